@@ -6,7 +6,7 @@ NOT_APPLICABLE = {
     "C12": "statistical statement over >=200 simulated events about an end-to-end numeric chain measured against an independent forward model; not a per-function contract (DESIGN §4 C12)",
     "C14": "totality/finiteness over a continuous domain through Nelder-Mead, complex arithmetic and transcendentals; Verus leaves floats uninterpreted, CBMC cannot unroll the minimiser (DESIGN §4 C14)",
     "C16": "global optimality of a Newton solve of Kepler's equation over transcendental functions: numerical analysis, not a contract (DESIGN §4 C16)",
-    "C17": "bit-for-bit and relative-error claims on f64 loops built from iterator chains; Verus has no float theory and the smallest relevant input is beyond bit-precise CBMC (DESIGN §4 C17)",
+    "C17": "bit-for-bit and relative-error claims on f64 loops built from iterator chains; Verus has no float theory (vstd leaves f64 arithmetic unspecified: obeys_*_spec is false, so two executions of the same operation are not even known to agree, and the skip-ahead equivalence cannot be stated over the real text without substituting the element type), and the smallest relevant input is beyond bit-precise CBMC (DESIGN §4 C17)",
 }
 
 _COMMON_NOTE = ("Trusted: Verus/Z3, rustc, Kani/CBMC, vstd specs of core/alloc, the extractor's rewrite rules (reported per run in evidence.coverage.rules_fired), "
